@@ -229,8 +229,7 @@ class C09(Check):
                   "folders=%d" % len(folders_all), "selected=%d" % len(want))
         out.sample = {"archive": spec, "targets": targets, "recursive": case["recursive"], "to": case["to"], "expected": want}
         env.state["k"] += 1
-        work = os.path.join(env.scratch, "c9-%d" % env.state["k"])
-        os.makedirs(work)
+        work = env.tmpdir("c9-")  # unique: a replacement sandbox child must not collide with a killed one
         sig = {"to": case["to"], "recursive": case["recursive"], "how": spec["how"]}
         try:
             T = set(targets) if case["as_set"] else targets
